@@ -71,4 +71,16 @@ def opPrecWalrus (j : Json) : Except String Json := do
   let out := walrus true n v single t
   pure <| jobj [("out", encE out), ("out_wp_if", jbool (WP 1 out)), ("value_rhs_ok", jbool (WPrhs v)), ("old", encE (walrus false n v single t))]
 
+/-- `prec_eval`: the value the model gives a tree - over the integers (`evalZ`) and as a condition over names and receivers (`evalB`) -/
+def opPrecEval (j : Json) : Except String Json := do
+  let e ← decE (← fld j "e")
+  let ints ← getList j "ints" fun p => do pure ((← getStr p "n"), (← getInt p "v"))
+  let strs ← getList j "strs" fun p => do pure ((← getStr p "n"), (← getStr p "v"))
+  let envZ : String → Int := fun n => (ints.lookup n).getD 0
+  let envB : Env := { name := fun n => (ints.lookup n).getD 0 != 0, recv := fun n => ((strs.lookup n).getD "").toList }
+  let enc (o : Option Int) : Json := match o with | some v => jint v | none => Json.null
+  let encB (o : Option Bool) : Json := match o with | some v => jbool v | none => Json.null
+  pure <| jobj [("z", enc (evalZ envZ e)), ("z_inverted", enc (evalZ envZ (invert true e))),
+                ("b", encB (evalB envB e)), ("b_combined", encB (evalB envB (combine true e))), ("and_folds", jbool (andFolds e))]
+
 end CM.Driver
